@@ -10,7 +10,34 @@ PACKET = Stage(
     nontrivial=lambda e: e.get("ev") not in ("NewW",),
 )
 
+FRAME = Stage(
+    family="frame",
+    mc={"quick": [("MC_Frame.tla", "MC_Frame_quick.cfg", "pass"), ("MC_Frame.tla", "MC_Frame_neg.cfg", "fail")],
+        "thorough": [("MC_Frame.tla", "MC_Frame.cfg", "pass"), ("MC_Frame.tla", "MC_Frame_neg.cfg", "fail")]},
+    parts={"quick": [("", 4)], "thorough": [("", 8)]},
+    trace=("Trace_Frame.tla", "Trace_Frame.cfg"),
+    nontrivial=lambda e: e.get("ev") in ("Decode", "DecodeB"),
+)
+
 CHECKS = {
+    "C04": dict(
+        stages=[FRAME],
+        technique="TLA+ model of stream framing (Frame.tla): TLC exhaustive over all arrival patterns/interleavings/"
+                  "truncations at small scope + TLC trace validation of the real codecs over a scripted ConnReader",
+        level_text="TLC explores every list of <=2 frames (bodies containing prefix-like octets), every arrival pattern, "
+                   "every interleaving of Arrive/Decode/DecodeBlocked, every truncation point, both stream endings and "
+                   "malformed prefixes 0..3, checking OutPrefix/Conserved/NoShortFrame/IncompleteConsumesNothing/"
+                   "NoPartialFrame; the model without the lower bound on the prefix is a negative configuration that must "
+                   "fail.  Both real codecs are then driven over every single-cut position of short streams, truncation at "
+                   "every point, malformed prefixes and random multi-cut schedules; each returned frame/error and Size() "
+                   "is validated step by step against the model",
+        level_note="the scripted ConnReader in the harness is trusted to implement the contract documented in codec/codec.go; "
+                   "frames above 64 KiB are not explored",
+        rule="schedules = (frame list, tail, chunking, sequence of Arrive/Decode/DecodeBlocked steps); distinct = distinct "
+             "Decode/DecodeBlocked events (result, frame, Size) ; Start/Arrive events are trivial",
+        assumptions=["scripted ConnReader follows codec.go's documented contract",
+                     "after an error the connection is closed (codec.go) - nothing further is checked on that stream"],
+    ),
     "C20": dict(
         stages=[PACKET],
         technique="TLA+ state machine of packet.Writer/Reader (Packet.tla): TLC exhaustive over all short op sequences + "
